@@ -128,10 +128,18 @@ def classify_diag(d, g):
     # a labelled contract clause anywhere among the spans names the obligation
     for sp in prim + sec:
         o, _t = origin(sp)
-        if o.get("kind") == "contract" and o.get("label"):
-            ob["label"] = o["label"]
-            ob["label_fn"] = o.get("fn")
-            break
+        if o.get("kind") == "contract":
+            # labels written on the lines the span covers win over a label carried from an earlier clause
+            here = []
+            for ln in range(sp["line_start"] - 1, min(sp["line_end"], len(g.origin))):
+                oo = g.origin[ln]
+                if oo.get("kind") == "contract" and oo.get("label_here") and oo["label"] not in here:
+                    here.append(oo["label"])
+            lab = "+".join(here) if here else o.get("label")
+            if lab:
+                ob["label"] = lab
+                ob["label_fn"] = o.get("fn")
+                break
     if po.get("kind") == "src":
         ob["where"] = "%s:%s" % (po.get("file"), po.get("src_line"))
         ob["src"] = norm_src(ptext)
@@ -166,8 +174,11 @@ def obligation_id(unit, ob):
 
 def props_of_label(label):
     """`C07.charge-diff`, `C07,C08.x`, `pre.wf`, `C19.x A2` -> set of property ids"""
-    head = label.split(".")[0]
-    return set(p for p in re.split(r"[ ,]+", head) if re.fullmatch(r"C\d\d", p))
+    ps = set()
+    for part in label.split("+"):
+        head = part.split(".")[0]
+        ps |= set(p for p in re.split(r"[ ,]+", head) if re.fullmatch(r"C\d\d", p))
+    return ps
 
 
 def fn_props(g, unit):
@@ -188,11 +199,20 @@ def trusted_scan(g):
     out = []
     for mt in re.finditer(r"\b(assume_specification|external_body|admit|assume|external_type_specification|external_fn_specification)\b", m):
         ln = txt.count("\n", 0, mt.start())
-        # find a name: next fn/ident on following lines
-        ctx = " ".join(x.strip() for x in g.lines[ln:ln + 3])
-        nm = re.search(r"\bfn\s+([A-Za-z_0-9]+)|\[([^\]]+)\]", ctx)
-        name = (nm.group(1) or nm.group(2)) if nm else ctx[:60]
-        out.append("%s: %s" % (mt.group(1), name.strip()))
+        kind = mt.group(1)
+        name = None
+        if kind in ("admit", "assume"):
+            # enclosing function: nearest `fn name` above
+            for k in range(ln, max(-1, ln - 40), -1):
+                nm = re.search(r"\bfn\s+([A-Za-z_0-9]+)", g.lines[k])
+                if nm:
+                    name = nm.group(1)
+                    break
+        else:
+            ctx = " ".join(x.strip() for x in g.lines[ln:ln + 6])
+            nm = re.search(r"\[([^\]]+)\]", ctx) if kind == "assume_specification" else re.search(r"\bfn\s+([A-Za-z_0-9]+)", ctx)
+            name = nm.group(1) if nm else None
+        out.append("%s: %s" % (kind, (name or "?").strip()))
     return sorted(set(out))
 
 
